@@ -92,6 +92,9 @@ impl World {
     }
 }
 
+/// number of hand-written histories run before the random ones
+pub const N_DIRECTED: usize = 3;
+
 pub fn penalty_num(loc: u32, class: u32) -> u32 {
     1000 + loc * 10 + class
 }
@@ -289,6 +292,45 @@ impl<'a> Gen<'a> {
         }
     }
 
+    /// hand-written histories for coincidences that random generation hits too rarely
+    pub fn directed(&mut self, which: usize) {
+        let enc = |l: u32, len: usize| BlobSpec::Enc { dispute: l, penalty: penalty_num(l, 0), len };
+        let empty = || HOp::Conn { txs: vec![], send: BTreeMap::new(), get: BTreeMap::new() };
+        let conn = |txs: Vec<u32>| HOp::Conn { txs, send: BTreeMap::new(), get: BTreeMap::new() };
+        let mut ops: Vec<HOp> = vec![HOp::Reg { user: 1 }, HOp::Reg { user: 2 }];
+        // one tracker reaches 100 confirmations in the very block in which another one's re-broadcast is rejected: the
+        // first is refunded, the second is not (three spacings, so that one of them makes the two coincide)
+        {
+            ops.push(HOp::Add { user: 1, loc: 1, blob: enc(1, 260), tsd: 10, sig: SigKind::Valid });
+            ops.push(HOp::Add { user: 2, loc: 2, blob: enc(2, if which == 1 { 4097 } else { 260 }), tsd: 10, sig: SigKind::Valid });
+            ops.push(conn(vec![1]));
+            ops.push(conn(vec![penalty_num(1, 0)]));
+            for _ in 0..(93 + which) {
+                ops.push(empty());
+            }
+            ops.push(conn(vec![2]));
+            let mut send = BTreeMap::new();
+            send.insert(penalty_num(2, 0), SendR::Rpc(-26));
+            for _ in 0..8 {
+                ops.push(HOp::Conn { txs: vec![], send: send.clone(), get: BTreeMap::new() });
+            }
+            ops.push(HOp::Sub { user: 1, sig: SigKind::Valid });
+            ops.push(HOp::Sub { user: 2, sig: SigKind::Valid });
+            ops.push(empty());
+        }
+        for op in ops {
+            if self.sys.dead {
+                break;
+            }
+            if let HOp::Conn { txs, .. } = &op {
+                for t in txs {
+                    self.world.known_txs.insert(*t);
+                }
+            }
+            self.run_op(op);
+        }
+    }
+
     pub fn history(&mut self, nops: usize, thorough: bool) {
         let mut i = 0;
         // most histories start with one or two registrations
@@ -302,7 +344,7 @@ impl<'a> Gen<'a> {
                 crate::httpc::extras(self);
                 continue;
             }
-            match self.rng.weighted(&[10, 34, 8, 4, 26, 8, 3, if thorough { 2 } else { 1 }]) {
+            match self.rng.weighted(&[10, 34, 8, 4, 26, 8, 3, if thorough { 2 } else { 1 }, if self.sys.http.is_some() { 0 } else { 3 }]) {
                 0 => {
                     let u = self.rng.range(1, self.nusers as u64) as u32;
                     self.run_op(HOp::Reg { user: u });
@@ -360,6 +402,12 @@ impl<'a> Gen<'a> {
                         self.run_op(op);
                     }
                 }
+                8 => {
+                    // a clean stop and start on the same data directory (every component rebuilt from the file and
+                    // the last 100 blocks); never in the middle of a reorg: the real tower restarts from its last
+                    // known block, i.e. from before the disconnections
+                    self.run_op(HOp::Restart);
+                }
                 6 => {
                     // walk: several (mostly empty) blocks
                     let n = self.rng.range(1, 9);
@@ -395,6 +443,7 @@ pub fn op_name(op: &HOp) -> &'static str {
         HOp::Sub { .. } => "sub",
         HOp::Conn { .. } => "conn",
         HOp::Disc => "disc",
+        HOp::Restart => "restart",
         HOp::Dump => "dump",
     }
 }
@@ -408,6 +457,7 @@ fn op_letter(op: &HOp, out: &Outcome) -> char {
         HOp::Sub { .. } => if ok { 'S' } else { 's' },
         HOp::Conn { txs, .. } => if txs.is_empty() { 'c' } else { 'C' },
         HOp::Disc => 'd',
+        HOp::Restart => 'R',
         HOp::Dump => '.',
     }
 }
@@ -445,11 +495,13 @@ pub fn run_mode2(seed: u64, thorough: bool, rep: &mut Report, http: bool, plugin
             }
             let mut rng = rngs.lock().unwrap()[c].take().unwrap();
             let mut rep = Report::detached();
-            let cfg = (
-                *rng.pick(&[1u32, 2, 3, 5, 8]),
+            let directed = if c < N_DIRECTED && !http { Some(c) } else { None };
+            let cfg = if directed.is_some() { (5u32, 400u32, 6u32) } else { (
+                // (a subscription size for which a second registration overflows u32: the refused-renewal path)
+                *rng.pick(&[1u32, 2, 3, 5, 8, 1, 2, 3, 5, 8, 2_200_000_000]),
                 [0u32, 1, 4, 10, 25, 150, 400][rng.weighted(&[3, 4, 8, 15, 25, 30, 15])],
                 *rng.pick(&[0u32, 1, 2, 6]),
-            );
+            ) };
             let height = 100 + rng.below(40) as u32;
             rep.begin_case(&format!("hist-{seed}-{c}"));
             let mut sys = TowerSys::boot(cfg, height, &boot, &mut rep);
@@ -459,7 +511,10 @@ pub fn run_mode2(seed: u64, thorough: bool, rep: &mut Report, http: bool, plugin
             }
             let nops = rng.range(15, if thorough { 140 } else { 70 }) as usize;
             let mut g = Gen { rng, sys, world: World::new(), rep: &mut rep, nlocs: 4, nusers: 3, monitors: true, mon: Default::default(), max_blob: if http { 800 } else { usize::MAX } };
-            g.history(nops, thorough);
+            match directed {
+                Some(d) => g.directed(d),
+                None => g.history(nops, thorough),
+            }
             let shape = g.world.shape.clone();
             let nontrivial = shape.contains('A') && shape.contains('C');
             drop(g);
